@@ -410,6 +410,7 @@ func main() {
 	cpuprof := flag.String("cpuprofile", "", "write a CPU profile (development aid)")
 	only := flag.Int("only", -1, "execute only this run of the batch (in a process without history)")
 	clkOff := flag.Int64("clockoffset", 0, "initial offset of the simulated clock in seconds (history-free twin processes get another date than the batch)")
+	_ = flag.Int("procs", 1, "GOMAXPROCS of this worker (set by the coordinator through the environment; recorded here for the log)")
 	backwards := flag.Bool("backwards", false, "volume operations walk their distinct values in reverse order (history-free twin process of O8)")
 	opHashes := flag.Bool("ophashes", false, "report one digest per operation with every run")
 	calib := flag.Bool("calibrate", false, "print which packet kinds and unit operations reach statements that touch shared state")
